@@ -33,6 +33,13 @@ def build(binname):
     if os.path.exists(cdir):
         shutil.rmtree(cdir)
     shutil.copytree(os.path.join(VERIF, "replay", "crate"), cdir)
+    # the scenario harness is linked into the replay programs too (same Rust source as the MIR that was executed)
+    hdir = os.path.join(root, "mirharness")
+    if os.path.exists(hdir):
+        shutil.rmtree(hdir)
+    shutil.copytree(os.path.join(VERIF, "mirharness"), hdir, ignore=shutil.ignore_patterns("target", "Cargo.lock", ".cargo"))
+    ct = open(os.path.join(hdir, "Cargo.toml")).read().replace('path = "/repo/metrics"', 'path = "../repo/metrics"')
+    open(os.path.join(hdir, "Cargo.toml"), "w").write(ct)
     shutil.copy(os.path.join(REPO, "Cargo.lock"), os.path.join(cdir, "Cargo.lock"))
     os.makedirs(os.path.join(cdir, ".cargo"), exist_ok=True)
     shutil.copy(os.path.join(BUILD, "cargo-config.toml"), os.path.join(cdir, ".cargo", "config.toml"))
